@@ -94,18 +94,22 @@ def library_seed(config_key: str = 'default') -> Snapshot:
 
 
 class ColdOracle:
-	"""`the same run started with an empty cache directory`, memoised per source state."""
+	"""`the same run started with an empty cache directory`, memoised per source state.
 
-	def __init__(self, pool: dict[str, Any], config: dict[str, Any] | None = None) -> None:
+	With enabled=False it is the *fresh process that parses and analyses everything itself* (C14/C15 oracle)."""
+
+	def __init__(self, pool: dict[str, Any], config: dict[str, Any] | None = None, enabled: bool | None = None, observe: Any = None) -> None:
 		self.pool = pool
 		self.config = config
+		self.enabled = enabled
+		self.observe = observe
 		self.memo: dict[tuple, dict[str, Any]] = {}
 		self.proj: Project | None = None
 		self.cold_runs = 0
 		self.truly_cold_runs = 0
 
-	def get(self, state: dict[str, int], truly_cold: bool = False, modules: list[str] | None = None) -> dict[str, Any]:
-		key = (tuple(sorted(state.items())), truly_cold, tuple(modules) if modules else None)
+	def get(self, state: dict[str, int], truly_cold: bool = False, modules: list[str] | None = None, observe: Any = None) -> dict[str, Any]:
+		key = (tuple(sorted(state.items())), truly_cold, tuple(modules) if modules else None, observe is not None)
 		if key in self.memo:
 			return self.memo[key]
 		if self.proj is None:
@@ -116,14 +120,14 @@ class ColdOracle:
 				proj.set_variant(m, v, 10**9)
 		proj.sc.clear('.cache')
 		proj.sc.clear('out')
-		if not truly_cold:
+		if not truly_cold and self.enabled is not False:
 			for rel, (content, mtime) in library_seed().items():
 				proj.sc.write(rel, content, mtime)
 		else:
 			self.truly_cold_runs += 1
 		self.cold_runs += 1
-		rec = proj.run(force=True, modules=modules)
-		ans = {'status': rec['status'], 'error': rec.get('error'), 'outputs': proj.outputs() if rec['status'] == 'ok' else {}}
+		rec = proj.run(force=True, modules=modules, enabled=self.enabled, observe=observe or self.observe)
+		ans = {'status': rec['status'], 'error': rec.get('error'), 'outputs': proj.outputs() if rec['status'] == 'ok' else {}, 'observed': (rec.get('result') or {}).get('observed')}
 		self.memo[key] = ans
 		return ans
 
